@@ -403,10 +403,16 @@ def serve_rounds(model, rounds, device="cpu"):
         out = []
         try:
             for reqs in rounds:
-                rs = await asyncio.wait_for(
-                    asyncio.gather(*[s.Evaluate(analysis_pb2.EvaluateRequest(position=list(r)), None) for r in reqs]), 120
-                )
-                out.append(rs)
+                g = asyncio.ensure_future(asyncio.gather(*[s.Evaluate(analysis_pb2.EvaluateRequest(position=list(r)), None) for r in reqs]))
+                done, _ = await asyncio.wait({g, task}, timeout=120, return_when=asyncio.FIRST_COMPLETED)
+                if g not in done:
+                    g.cancel()
+                    if task in done:
+                        # the worker loop is gone (it raised): nobody will ever answer these requests
+                        exc = task.exception() if not task.cancelled() else None
+                        raise RuntimeError("the server's worker loop ended (%s) with %d requests unanswered" % (type(exc).__name__ if exc else "cancelled", len(reqs)))
+                    raise asyncio.TimeoutError("%d requests unanswered after 120 s" % len(reqs))
+                out.append(g.result())
         finally:
             task.cancel()
             try:
